@@ -3,6 +3,8 @@
 package protocol
 
 import (
+	"errors"
+
 	"github.com/fxamacker/cbor/v2"
 	"github.com/taurusgroup/multi-party-sig/internal/round"
 	"github.com/taurusgroup/multi-party-sig/internal/vsym"
@@ -90,6 +92,16 @@ func H_Equivocate() {
 			deliverTo(hb, toB)
 			deliverTo(hb, ma)
 			deliverTo(ha, mb)
+		}
+	}
+	// blame (C04): whoever aborts never names the honest peer
+	for _, h := range []*MultiHandler{ha, hb} {
+		_, err := h.Result()
+		var perr Error
+		if err != nil && errors.As(err, &perr) {
+			for _, c := range perr.Culprits {
+				vsym.Assert(c == "c", "an equivocation abort never names an honest party")
+			}
 		}
 	}
 	both := vsym.And(finished(ha), finished(hb))
